@@ -1,5 +1,6 @@
 import GqlModel.Basic.Bytes
 import GqlModel.Basic.Utf8
+import GqlModel.Validate.View
 /-
   `validator/suggestionList.go` and `validator/messaging.go`.
 
@@ -56,8 +57,8 @@ def calcThreshold (a : Bytes) : Nat := a.length * 2 / 5 + 1
 
 /-- `SuggestionList` (stable) -/
 def suggestionList (input : Bytes) (options : List Bytes) : List Bytes :=
-  (options.filter fun o => lexicalDistance input o ≤ calcThreshold input).mergeSort
-    fun x y => lexicalDistance input x ≤ lexicalDistance input y
+  stableSort (fun x y => decide (lexicalDistance input x ≤ lexicalDistance input y))
+    (options.filter fun o => lexicalDistance input o ≤ calcThreshold input)
 
 def joinWith (sep : Bytes) : List Bytes → Bytes
   | [] => []
